@@ -12,7 +12,8 @@ ap.add_argument("--props", default="own")
 ap.add_argument("ids", nargs="*")
 a = ap.parse_args()
 ids = a.ids or sorted(os.listdir(a.dir))
-allprops = sorted(f[:-3].upper() for f in os.listdir("/verif/ubcheck/rules") if f.startswith("c") and f.endswith(".py"))
+import re
+allprops = sorted(f[:-3].upper() for f in os.listdir("/verif/ubcheck/rules") if re.fullmatch(r"c\d\d\.py", f))
 summary = {}
 for sid in ids:
     d = os.path.join(a.dir, sid)
